@@ -153,6 +153,15 @@ func (r *report) addUnit(o *unitOutcome) {
 			}
 		}
 		for _, v := range res.Violations {
+			if len(u.OnlyTags) > 0 && !u.MustFail {
+				mine := false
+				for _, t := range u.OnlyTags {
+					mine = mine || strings.HasPrefix(v.Tag, t)
+				}
+				if !mine {
+					continue // an assertion of a sibling property sharing this harness
+				}
+			}
 			vcount++
 			st.Violations[v.Tag]++
 			if u.MustFail {
